@@ -187,18 +187,28 @@ def binop (op : String) (a b : Val) (w : World) : Res Val × World :=
        | _ => (.err unmodelled, w))
     | _, _ => (.err unmodelled, w)
 
+/-- the keys the model of `Obj.__setitem__ / __getitem__` knows about: integers, strings, booleans, `None` (whether
+    any other value is hashable, and how it compares, is Python's business: not modelled) -/
+def scalarKey : Val → Bool
+  | .int _ | .str _ | .bool _ | .noneV => true
+  | _ => false
+
 def getitem (o k : Val) (w : World) : Res Val × World :=
   match o, k with
   | .obj "DictPile" [], .str x => (.ok ((glob x).getD .absent), w)
   | .obj "Obj" [], k =>
-    (match w.items.find? (fun p => p.1 == k) with
-     | some p => (.ok p.2, w)
-     | none => (.err (exc "KeyError"), w))
+    if scalarKey k then
+      (match w.items.find? (fun p => p.1 == k) with
+       | some p => (.ok p.2, w)
+       | none => (.err (exc "KeyError"), w))
+    else (.err unmodelled, w)
   | _, _ => (.err unmodelled, w)
 
 def setitem (o k v : Val) (w : World) : Res Unit × World :=
   match o with
-  | .obj "Obj" [] => (.ok (), { w with items := (w.items.filter fun p => !(p.1 == k)) ++ [(k, v)] })
+  | .obj "Obj" [] =>
+    if scalarKey k then (.ok (), { w with items := (w.items.filter fun p => !(p.1 == k)) ++ [(k, v)] })
+    else (.err unmodelled, w)
   | _ => (.err unmodelled, w)
 
 def getattr (o : Val) (a : String) (w : World) : Res Val × World :=
